@@ -202,7 +202,7 @@ async def _worker(sim, sc, out):
                 continue
             E = sim.clock.dt_to_us(datetime.fromisoformat(p["ts"])) + int(p["ttl"] * 1e6)
             E_ref = latest_scheduling(d.end_seq) + int(p["ttl"] * 1e6)
-            if abs(E - E_ref) > 1_200_000 and j.get("by_s"):
+            if abs(E - E_ref) > 1_200_000 and (j.get("by_s") or j.get("retries")):
                 V.append(violation("ttl-clock", f"C12/{b}/worker/ttl-not-counted-from-latest-scheduling", id=jid,
                                    off_by_us=E - E_ref))
                 break
